@@ -941,10 +941,17 @@ func runFlagSpace(c *Check, a *Analysis) {
 		okU, okC := false, false
 		family := withClosures(topParent(top))
 		// helpers called from the family that prepare the context (extract-function refactoring)
-		for _, f := range withClosures(topParent(top)) {
-			eachInstr(f, func(in ssa.Instruction) {
-				if cc, ok := in.(ssa.CallInstruction); ok {
-					if cal := cc.Common().StaticCallee(); cal != nil && cal.Pkg == p.RPC && cal.Blocks != nil && cal != sr {
+		// the context may come from a helper that prepares it (extract-function refactoring)
+		var ctxArg ssa.Value
+		for i, prm := range sr.Params {
+			if pointeeName(prm) == "Context" && i < len(call.Common().Args) {
+				ctxArg = call.Common().Args[i]
+			}
+		}
+		if ctxArg != nil {
+			for _, o := range p.varOrigins(ctxArg) {
+				if cc, ok := p.canon(o).(*ssa.Call); ok {
+					if cal := cc.Common().StaticCallee(); cal != nil && cal.Pkg == p.RPC && cal.Blocks != nil {
 						if len(p.fieldStoresIn(cal, "Context", "upgrade")) > 0 {
 							okU = true
 						}
@@ -953,7 +960,7 @@ func runFlagSpace(c *Check, a *Analysis) {
 						}
 					}
 				}
-			})
+			}
 		}
 		for _, f := range family {
 			for _, s := range p.fieldStoresIn(f, "Context", "upgrade") {
